@@ -879,7 +879,9 @@ func checkC16(c *Ctx) {
 		func() *AV { return &AV{K: AVStringer, ID: 1, S: "abc"} }, func() *AV { return &AV{K: AVInt64, I: 1} }, func() *AV { return &AV{K: AVInt32, I: 1} }, func() *AV { return avStr("1.0") },
 		func() *AV { return &AV{K: AVOther, Tag: 4} }, func() *AV {
 			return &AV{K: AVStringer, ID: 0, S: pick(c.R, []string{"abc", "", "42", "1,5", "0x", "--1"})}
-		}, func() *AV { return &AV{K: AVOther, Tag: c.R.Intn(len(otherNames))} }}
+		}, func() *AV { return &AV{K: AVOther, Tag: c.R.Intn(len(otherNames))} },
+		// a Stringer that uses the evaluator in progress while it is asked for its text (values.go), one whose text changes
+		func() *AV { return &AV{K: AVStringer, ID: 3001, S: "abc"} }, func() *AV { return &AV{K: AVStringer, ID: 7001, S: "abc"} }}
 	var cells []*leafCase
 	for _, kind := range litKinds {
 		for op := 12; op <= 21; op++ {
